@@ -69,6 +69,8 @@ type Case struct {
 	Args     []string `json:"args"`
 	Dispatch bool     `json:"dispatch,omitempty"`
 	Help     bool     `json:"help,omitempty"` // also compare Help() after Parse
+	Reparse  bool     `json:"reparse,omitempty"` // afterwards parse an empty command line on the same object (oracle)
+	HelpSecs []int    `json:"helpsecs,omitempty"` // sections passed to Help(...): 2 name 3 synopsis 4 commands 5 options 6 info
 	// completion request instead of parse
 	Comp     bool     `json:"comp,omitempty"`
 	Zsh      bool     `json:"zsh,omitempty"`
@@ -315,7 +317,11 @@ func (c *Case) lines() []string {
 			out = append(out, "dispatch")
 		}
 		if c.Help {
-			out = append(out, "helpof")
+			l := "helpof"
+			for _, sec := range c.HelpSecs {
+				l += " " + strconv.Itoa(sec)
+			}
+			out = append(out, l)
 		}
 	}
 	out = append(out, "end")
